@@ -97,7 +97,8 @@ func createRedirectSignature(
 		return "", "", err
 	}
 
-	return url.QueryEscape(base64.StdEncoding.EncodeToString(sig)), url.QueryEscape(base64.StdEncoding.EncodeToString([]byte(signatureAlgorithm))), nil
+	// BuildRedirectQuery escapes the values, they must be handed over unescaped, and the algorithm as the URI which was signed
+	return base64.StdEncoding.EncodeToString(sig), signatureAlgorithm, nil
 }
 
 func BuildRedirectQuery(
